@@ -332,7 +332,7 @@ pub fn crosscheck_stateright<S: Sut + 'static>(ctx: &Ctx, name: &str, inits: Vec
         Some(x) => x,
         None => return,
     };
-    if cap || our_viol > 0 || depth_done as usize != max_depth {
+    if cap || our_viol > 0 || depth_done as usize > max_depth {
         return; // nothing to compare against a partial exploration / frontier exhausted earlier
     }
     let t0 = Instant::now();
